@@ -14,13 +14,34 @@
 (*   tc    : the TC bit                                                     *)
 (*   ka    : -1 = no edns-tcp-keepalive option, n >= 0 = option with an     *)
 (*           idle timeout of n ticks (an OPT record makes body TRUE)        *)
+(*   recs  : the zone-transfer view of the answer section: one entry per    *)
+(*           SOA record (its serial, > 0) or other transfer record (0);     *)
+(*           <<>> for ordinary messages                                     *)
+(*                                                                          *)
+(* A question is a triple (name, type, class).  Question numbers encode it: *)
+(*   n (1..99)  name n, type A, class IN                                    *)
+(*   100 + n    same name, another type (AAAA)                              *)
+(*   200 + n    same name and type, another class (CH)                      *)
+(*   300 + n    the same question with the name in another letter case      *)
+(*              (equal to n: names compare case-insensitively)              *)
+(*   400 + n    QDCOUNT 2: question n and a second question                 *)
+(*   500 + n    name n, type AXFR;   600 + n    name n, type IXFR           *)
 EXTENDS Naturals, Integers, Sequences
 
 NoQ == 0
 
 Msg(id, qr, q, rcode, body, tc, ka) ==
   [id |-> id, qr |-> qr, q |-> q, rcode |-> rcode, body |-> body,
-   tc |-> tc, ka |-> ka]
+   tc |-> tc, ka |-> ka, recs |-> <<>>]
+
+\* a zone-transfer response
+XfrMsg(id, q, rcode, recs) ==
+  [id |-> id, qr |-> TRUE, q |-> q, rcode |-> rcode, body |-> recs # <<>>,
+   tc |-> FALSE, ka |-> -1, recs |-> recs]
+
+\* questions compare by (name ignoring case, type, class)
+QNorm(x) == IF x >= 300 /\ x < 400 THEN x - 300 ELSE x
+QKind(x) == IF x >= 600 /\ x < 700 THEN "ixfr" ELSE IF x >= 500 /\ x < 600 THEN "axfr" ELSE "single"
 
 (* The property's notion of "answers that caller's own request": same ID    *)
 (* and same question; a header-only error reply needs only the ID.  This is *)
@@ -31,13 +52,62 @@ HeaderOnlyError(f) == f.rcode # 0 /\ f.q = NoQ /\ ~f.body
 IsAnswer(f, id, q) ==
   /\ f.qr
   /\ f.id = id
-  /\ (HeaderOnlyError(f) \/ f.q = q)
+  /\ (HeaderOnlyError(f) \/ QNorm(f.q) = q)
+
+\* RequestMessageMulti::is_answer: an AXFR response may leave the question
+\* section empty (RFC 5936 2.2)
+IsAnswerMulti(f, id, q) ==
+  /\ f.qr
+  /\ f.id = id
+  /\ (HeaderOnlyError(f) \/ (QKind(q) = "axfr" /\ f.q = NoQ) \/ QNorm(f.q) = q)
+
+--------------------------------------------------------------------------
+(* check_stream (src/net/client/stream.rs): where a zone transfer ends.    *)
+(* State [k, s]: k in AI (AXFRInit) AF (AXFRFirstSoa) II (IXFRInit) IF      *)
+(* (IXFRFirstSoa) D1 (IXFRFirstDiffSoa) D2 (IXFRSecondDiffSoa) Done Err;    *)
+(* s the serial of the first SOA.  Result [eof, x, ans].                    *)
+XSt(k, sr) == [k |-> k, s |-> sr]
+XRes(eof, x, ans) == [eof |-> eof, x |-> x, ans |-> ans]
+XErrSt == XSt("Err", 0)
+
+\* the record loop: [x, bad] (bad: switched to the error state midway)
+RECURSIVE XRecs(_, _)
+XRecs(x, recs) ==
+  IF recs = <<>> THEN [x |-> x, bad |-> FALSE]
+  ELSE LET rr == Head(recs)
+           soa == rr > 0
+           nx == CASE x.k = "AI" -> IF soa THEN XSt("AF", rr) ELSE XErrSt
+                   [] x.k = "AF" -> IF soa THEN (IF rr = x.s THEN XSt("Done", x.s) ELSE XErrSt) ELSE x
+                   [] x.k = "II" -> IF soa THEN XSt("IF", rr) ELSE XErrSt
+                   [] x.k = "IF" -> IF soa THEN (IF rr = x.s THEN XSt("Done", x.s) ELSE XSt("D1", x.s))
+                                    ELSE XSt("AF", x.s)
+                   [] x.k = "D1" -> IF soa THEN XSt("D2", x.s) ELSE x
+                   [] x.k = "D2" -> IF soa THEN (IF rr = x.s THEN XSt("Done", x.s) ELSE XSt("D1", x.s))
+                                    ELSE x
+                   [] OTHER      -> XErrSt          \* a record after the end
+       IN IF nx.k = "Err" THEN [x |-> XErrSt, bad |-> TRUE] ELSE XRecs(nx, Tail(recs))
+
+CheckStream(f, x, id, q) ==
+  IF x.k \in {"AI", "II"} /\ ~IsAnswerMulti(f, id, q) THEN XRes(FALSE, XErrSt, FALSE)
+  ELSE IF x.k \in {"Done", "Err"} THEN XRes(FALSE, XErrSt, FALSE)
+  ELSE IF f.rcode # 0
+       THEN IF IsAnswerMulti(f, id, q) THEN XRes(TRUE, x, TRUE) ELSE XRes(FALSE, XErrSt, FALSE)
+  ELSE LET w == XRecs(x, f.recs)
+       IN IF w.bad THEN XRes(FALSE, XErrSt, FALSE)
+          ELSE IF w.x.k \in {"AI", "II"} THEN XRes(FALSE, XErrSt, FALSE)   \* empty answer section
+          ELSE IF w.x.k \in {"IF", "Done"} THEN XRes(TRUE, XSt("Done", w.x.s), TRUE)
+          ELSE XRes(FALSE, w.x, TRUE)
 
 (* Outcomes handed to a caller.  n is the serial number of the peer message *)
 (* that was delivered (ghost, used for "no message is delivered twice").    *)
-OkOut(f, n)  == [ok |-> TRUE, f |-> f, n |-> n, why |-> "response"]
+(* fin: nothing follows (always for a single-response request; for a zone  *)
+(* transfer only the end-of-stream mark or a connection error).            *)
+OkOut(f, n)  == [ok |-> TRUE, f |-> f, n |-> n, why |-> "response", fin |-> TRUE]
 ErrOut(why)  == [ok |-> FALSE, f |-> Msg(0, FALSE, 0, 0, FALSE, FALSE, -1),
-                 n |-> 0, why |-> why]
+                 n |-> 0, why |-> why, fin |-> TRUE]
+PartOut(f, n) == [OkOut(f, n) EXCEPT !.fin = FALSE]          \* one message of a transfer
+WrongPart     == [ErrOut("wrongreply") EXCEPT !.fin = FALSE] \* WrongReplyForQuery, stream stays open
+EofOut        == [ErrOut("endmark") EXCEPT !.ok = TRUE]          \* Ok(None)
 
 Min2(a, b) == IF a <= b THEN a ELSE b
 =============================================================================
